@@ -185,3 +185,11 @@ M('c19-handle-exception-parks-resp', 'C19', None, 'falcon/app.py',
         self._failed.append((req, resp))
 
         # NOTE(caselit): Reset body""")
+
+M('c19-find-reads-tables-into-locals-first', 'C19', 'R1', 'falcon/routing/compiled.py',
+  """        node: Optional[CompiledRouterNode] = self._find(
+            path, self._return_values, self._patterns, self._converters, params
+        )""", """        return_values = self._return_values
+        node: Optional[CompiledRouterNode] = self._find(
+            path, return_values, self._patterns, self._converters, params
+        )""", also=('C01',))
